@@ -56,6 +56,11 @@ type selectionPlan struct {
 	// request (from sources) with the variables bound.
 	dynamic bool
 	sources []*ast.SelectionSet
+	// paths[i] names the fragments through which sources[i] was reached
+	// (nil for none). Spreading one of them again inside sources[i] would
+	// recurse forever: a fragment cycle that passes through a field.
+	// Validation rejects such documents; planning must merely terminate.
+	paths []map[string]bool
 }
 
 // collectState carries what one collection pass needs to know about
@@ -85,6 +90,10 @@ type fieldPlan struct {
 	// directives against request variables. nil ⇒ always include
 	// (constant-true at plan time, the common case).
 	skipPredicate func(map[string]interface{}) bool
+
+	// vias[i] names the fragments through which fieldASTs[i] was reached
+	// (see selectionPlan.paths).
+	vias []map[string]bool
 
 	// sub is set when returnType (after unwrapping NonNull and List)
 	// resolves to a single concrete *Object; abstractAlternatives is
@@ -205,9 +214,9 @@ func (p *Plan) planSelectionSet(parentType *Object, selectionSet *ast.SelectionS
 	sp := &selectionPlan{parentType: parentType}
 	keyed := map[string]int{}
 	cs := &collectState{}
-	p.collectInto(parentType, selectionSet, visitedFragmentNames, sp, keyed, nil, cs)
+	p.collectInto(parentType, selectionSet, visitedFragmentNames, sp, keyed, nil, cs, nil)
 	if cs.dynamic {
-		return &selectionPlan{parentType: parentType, dynamic: true, sources: []*ast.SelectionSet{selectionSet}}
+		return &selectionPlan{parentType: parentType, dynamic: true, sources: []*ast.SelectionSet{selectionSet}, paths: []map[string]bool{nil}}
 	}
 	if len(sp.fields) == 0 {
 		return nil
@@ -231,7 +240,7 @@ func (p *Plan) planMergedFieldChildren(fp *fieldPlan) {
 	// Object returns resolve to a single concrete type, so plan their
 	// sub-selection eagerly.
 	if obj, ok := unwrapNamedType(fp.returnType).(*Object); ok {
-		fp.sub = p.planMergedSelectionsForType(obj, fp.fieldASTs)
+		fp.sub = p.planMergedSelectionsForType(obj, fp.fieldASTs, fp.vias)
 		return
 	}
 	// Abstract returns (Interface / Union) are planned lazily, per
@@ -260,7 +269,7 @@ func (p *Plan) abstractAlternative(fp *fieldPlan, runtimeType *Object) *selectio
 		return sub
 	}
 	verifhook.Count(verifhook.PlanAbstractAlternativeBuild)
-	sub := p.planMergedSelectionsForType(runtimeType, fp.fieldASTs)
+	sub := p.planMergedSelectionsForType(runtimeType, fp.fieldASTs, fp.vias)
 	fp.abstractAlternatives[runtimeType] = sub
 	return sub
 }
@@ -269,30 +278,40 @@ func (p *Plan) abstractAlternative(fp *fieldPlan, runtimeType *Object) *selectio
 // SelectionSet under one concrete parent type, returning a
 // selectionPlan that mirrors what completeObjectValue's runtime
 // collectFields loop would produce.
-func (p *Plan) planMergedSelectionsForType(parentType *Object, fieldASTs []*ast.Field) *selectionPlan {
+func (p *Plan) planMergedSelectionsForType(parentType *Object, fieldASTs []*ast.Field, vias []map[string]bool) *selectionPlan {
 	verifhook.Count(verifhook.PlanMergedSelectionsForType)
 	sources := make([]*ast.SelectionSet, 0, len(fieldASTs))
-	for _, f := range fieldASTs {
+	paths := make([]map[string]bool, 0, len(fieldASTs))
+	for i, f := range fieldASTs {
 		if f == nil || f.SelectionSet == nil {
 			continue
 		}
 		sources = append(sources, f.SelectionSet)
+		var via map[string]bool
+		if i < len(vias) {
+			via = vias[i]
+		}
+		paths = append(paths, via)
 	}
-	return p.collectSelectionSets(parentType, sources, &collectState{})
+	return p.collectSelectionSets(parentType, sources, paths, &collectState{})
 }
 
 // collectSelectionSets collects the union of the given selection sets under
 // one concrete parent type. With unbound variables a set that turns out to
 // be dynamic is returned as a stub to be collected again per request.
-func (p *Plan) collectSelectionSets(parentType *Object, sources []*ast.SelectionSet, cs *collectState) *selectionPlan {
+func (p *Plan) collectSelectionSets(parentType *Object, sources []*ast.SelectionSet, paths []map[string]bool, cs *collectState) *selectionPlan {
 	sp := &selectionPlan{parentType: parentType}
 	keyed := map[string]int{}
 	visited := map[string]bool{}
-	for _, set := range sources {
-		p.collectInto(parentType, set, visited, sp, keyed, nil, cs)
+	for i, set := range sources {
+		var path map[string]bool
+		if i < len(paths) {
+			path = paths[i]
+		}
+		p.collectInto(parentType, set, visited, sp, keyed, nil, cs, path)
 	}
 	if cs.dynamic {
-		return &selectionPlan{parentType: parentType, dynamic: true, sources: sources}
+		return &selectionPlan{parentType: parentType, dynamic: true, sources: sources, paths: paths}
 	}
 	if len(sp.fields) == 0 {
 		return nil
@@ -319,7 +338,7 @@ func (p *Plan) collectSelectionSets(parentType *Object, sources []*ast.Selection
 // keyed maps responseKey → index in sp.fields so repeat selections
 // of the same response key merge their fieldASTs (matches
 // collectFields's `fields[name] = append(fields[name], selection)`).
-func (p *Plan) collectInto(parentType *Object, selectionSet *ast.SelectionSet, visitedFragmentNames map[string]bool, sp *selectionPlan, keyed map[string]int, parentPred func(map[string]interface{}) bool, cs *collectState) {
+func (p *Plan) collectInto(parentType *Object, selectionSet *ast.SelectionSet, visitedFragmentNames map[string]bool, sp *selectionPlan, keyed map[string]int, parentPred func(map[string]interface{}) bool, cs *collectState, path map[string]bool) {
 	verifhook.Count(verifhook.PlanCollectInto)
 	for _, iSelection := range selectionSet.Selections {
 		switch sel := iSelection.(type) {
@@ -339,6 +358,7 @@ func (p *Plan) collectInto(parentType *Object, selectionSet *ast.SelectionSet, v
 				// validation rules guarantee mergeable selections refer
 				// to the same field).
 				sp.fields[idx].fieldASTs = append(sp.fields[idx].fieldASTs, sel)
+				sp.fields[idx].vias = append(sp.fields[idx].vias, path)
 				continue
 			}
 			fieldName := ""
@@ -357,6 +377,7 @@ func (p *Plan) collectInto(parentType *Object, selectionSet *ast.SelectionSet, v
 				fieldDef:      fieldDef,
 				fieldASTs:     []*ast.Field{sel},
 				skipPredicate: andPredicates(parentPred, pred),
+				vias:          []map[string]bool{path},
 			}
 			if fieldDef != nil {
 				fp.returnType = fieldDef.Type
@@ -374,7 +395,7 @@ func (p *Plan) collectInto(parentType *Object, selectionSet *ast.SelectionSet, v
 				continue
 			}
 			if sel.SelectionSet != nil {
-				p.collectInto(parentType, sel.SelectionSet, visitedFragmentNames, sp, keyed, andPredicates(parentPred, pred), cs)
+				p.collectInto(parentType, sel.SelectionSet, visitedFragmentNames, sp, keyed, andPredicates(parentPred, pred), cs, path)
 			}
 
 		case *ast.FragmentSpread:
@@ -387,6 +408,11 @@ func (p *Plan) collectInto(parentType *Object, selectionSet *ast.SelectionSet, v
 				fragName = sel.Name.Value
 			}
 			if visitedFragmentNames[fragName] {
+				continue
+			}
+			if path[fragName] {
+				// the fragment is being expanded further up: a cycle
+				// through a field, only possible in an unvalidated document
 				continue
 			}
 			frag, ok := p.fragments[fragName]
@@ -402,10 +428,20 @@ func (p *Plan) collectInto(parentType *Object, selectionSet *ast.SelectionSet, v
 				continue
 			}
 			if fragDef.GetSelectionSet() != nil {
-				p.collectInto(parentType, fragDef.GetSelectionSet(), visitedFragmentNames, sp, keyed, andPredicates(parentPred, pred), cs)
+				p.collectInto(parentType, fragDef.GetSelectionSet(), visitedFragmentNames, sp, keyed, andPredicates(parentPred, pred), cs, withName(path, fragName))
 			}
 		}
 	}
+}
+
+// withName returns names ∪ {name} without modifying names.
+func withName(names map[string]bool, name string) map[string]bool {
+	out := make(map[string]bool, len(names)+1)
+	for n := range names {
+		out[n] = true
+	}
+	out[name] = true
+	return out
 }
 
 // directives evaluates @skip / @include like planDirectives. With bound
@@ -722,7 +758,7 @@ func ExecutePlan(plan *Plan, p ExecuteParams) (result *Result) {
 // so this walker is the same for both.
 func executePlannedSelection(eCtx *executionContext, sp *selectionPlan, source interface{}, parentType *Object, path *ResponsePath) map[string]interface{} {
 	if sp != nil && sp.dynamic && eCtx.plan != nil {
-		sp = eCtx.plan.collectSelectionSets(sp.parentType, sp.sources, &collectState{bound: true, vars: eCtx.VariableValues})
+		sp = eCtx.plan.collectSelectionSets(sp.parentType, sp.sources, sp.paths, &collectState{bound: true, vars: eCtx.VariableValues})
 	}
 	if sp == nil {
 		return map[string]interface{}{}
